@@ -118,6 +118,16 @@ PROPS = {
             "histories: each call is proved for every stored value, cross-call monotonicity follows per call",
         ],
     },
+    "C09": {
+        "units": ["cli"], "kani_complete": [], "kani_bounded_quick": [], "kani_bounded_thorough": [],
+        "design_ref": "DESIGN.md section 5 / C09",
+        "not_covered": [
+            "make_salt (iterator chain): the salt prefix \"WebAuthn PRF\" || 0x00 is an ASSUMED contract, a wrong prefix is not detected",
+            "get_ctap_extension / make_ctap_extension (iterator and collect chains): per-credential inputs without an allow list, "
+            "empty / undecodable / unlisted credential keys are not decided",
+            "select_salts (HashMap::into_iter().find with a tuple pattern): per-credential precedence on the authenticator side",
+        ],
+    },
     "C10": {
         "units": ["psl"], "kani_complete": [], "kani_bounded_quick": [], "kani_bounded_thorough": [],
         "design_ref": "DESIGN.md section 5 / C10",
@@ -130,7 +140,7 @@ PROPS = {
         ],
     },
     "C11": {
-        "units": ["cer"], "kani_complete": [], "kani_bounded_quick": [], "kani_bounded_thorough": [],
+        "units": ["cer", "cli"], "kani_complete": [], "kani_bounded_quick": [], "kani_bounded_thorough": [],
         "design_ref": "DESIGN.md section 5 / C11",
         "not_covered": [
             "the dataflow inside Client::register that passes the same rk to the authenticator and to credProps",
